@@ -182,7 +182,7 @@ func (k *keyedSession) update(it *item) {
 	req := proto.Clone(s.randomExtras()).ProtoReflect()
 	setStr(req, "name", devName)
 	req.Set(payloadField(k.t.update.Input(), k.t.resource), protoreflect.ValueOfMessage(p.ProtoReflect()))
-	um := s.randMask(k.t.resource, 50, false)
+	um := s.randMask(k.t.resource, 50, s.r.Intn(2) == 0)
 	if um != nil && len(um.Paths) == 0 {
 		um = nil
 	}
